@@ -215,6 +215,11 @@ def res_class(r):
 
 
 class SchedRun:
+    _sch = None
+    _times = {}
+    _node_counter = 0
+    _lazy = []
+
     def __init__(self, seed, tier, tag, plan=None, prop="C05"):
         self.seed = seed
         self.tier = tier
@@ -315,19 +320,34 @@ class SchedRun:
         first = self.single_fn(op, pre_state)
         then = self.single_fn(op["then"], pre_state) if op.get("then") else None
 
+        node = self._node_counter
+        self._node_counter += 1
+        times = self._times
+
+        def now():
+            sch = self._sch
+            return sch.step if sch is not None else 0
+
         def run():
+            t0 = now()
             s = st if st is not None else opener()
             self._lazy.append(s) if st is None else None
             if then is None:
-                return first(s)
+                try:
+                    return first(s)
+                finally:
+                    times[(node, 0)] = (t0, now())
             try:
                 r1 = ("ok", first(s))
             except Exception as e:  # noqa: BLE001 - outcome of the first request
                 r1 = ("exc", e)
+            t1 = now()
+            times[(node, 0)] = (t0, t1)
             try:
                 r2 = ("ok", then(s))
             except Exception as e:  # noqa: BLE001
                 r2 = ("exc", e)
+            times[(node, 1)] = (t1, now())
             return ("seq", r1, r2)
 
         return run
@@ -526,6 +546,9 @@ class SchedRun:
         FS.hook = lambda kind, paths, mut: sch.yield_point(kind)
         FS.active = True
         tracer = make_tracer(sch) if plan["mode"] == "threads" else None
+        self._sch = sch
+        self._times = {}
+        self._node_counter = 0
         fns = [self.op_fn(stores[i], plan["ops"][i], pre_state, opener=lambda: open_store(plan["backend"], work)) for i in range(n)]
         try:
             results = sch.run(fns, first, tracer)
@@ -557,8 +580,11 @@ class SchedRun:
         if self.prop == "C09":
             return self.git_view(plan, work, got, sch, recorded)
 
-        def viol(cls, detail):
-            self.violations.append({"prop": "C05", "oracle": "C05." + cls, "sig": dict(label, oracle="C05." + cls), "step": None,
+        def viol(cls, detail, overlapping=None):
+            sg = dict(label, oracle="C05." + cls)
+            if overlapping is not None:
+                sg["overlapping"] = overlapping
+            self.violations.append({"prop": "C05", "oracle": "C05." + cls, "sig": sg, "step": None,
                                     "detail": ("%s | ops=%s lazy_open=%s results=%s switches=%s" % (detail, [(o["op"], o["name"], o.get("cond"), ("then", o["then"]["op"], o["then"]["name"]) if o.get("then") else None) for o in plan["ops"]],
                                                                                              bool(plan.get("lazy_open")), got, sch.signature[:6]))[:900]})
             return recorded
@@ -583,9 +609,19 @@ class SchedRun:
         if weird:
             self.count("unexpected_exceptions", len(weird))
         live = [sk for sk in sorted(sres) if sk not in locked and sk not in weird]
+        times = dict(self._times)
+
+        def before(x, y):
+            """x had completed (strictly) before y started: every sequential explanation must keep that order."""
+            return x in times and y in times and times[x][1] < times[y][0]
+
+        def respects_real_time(order):
+            pos = {sk: j for j, sk in enumerate(order)}
+            return not any(before(y, x) for x in order for y in order if pos[x] < pos[y])
+
         match = None
         for order, res, fin in outcomes_for(live):
-            if all(res[sk] == sres[sk] for sk in live) and fin == final:
+            if respects_real_time(order) and all(res[sk] == sres[sk] for sk in live) and fin == final:
                 match = order
                 break
         if len(self.samples) < 2 and sch.switches_inside:
@@ -632,21 +668,27 @@ class SchedRun:
                 explained = True
                 break
         if explained:
+            def concurrent(x, y):
+                return not before(x, y) and not before(y, x)
+
             conds = [sk for sk in oks if opof[sk].get("cond") == "current" and opof[sk]["op"] == "put"]
             for a, b in itertools.combinations(conds, 2):
                 if opof[a]["name"] == opof[b]["name"]:
-                    return viol("both-conditional-succeed", "two conditional updates of %s against the same etag both succeeded" % opof[a]["name"])
+                    return viol("both-conditional-succeed", "two conditional updates of %s against the same etag both succeeded" % opof[a]["name"], overlapping=concurrent(a, b))
             uids = {}
             overlapping_dup = False
             for nm, d in sorted(final.items()):
                 u = icalparse.first_uid(d)
                 if u is not None and u in uids:
-                    # Which acknowledged writes produced the two holders?  If one of them is a node's
-                    # *second* request issued after the other holder's write had completed, the two
-                    # writes did not overlap at all.
-                    return viol("duplicate-uid", "%s and %s share UID %s" % (uids[u], nm, u))
+                    # Which acknowledged writes produced the two holders?  If they did not overlap in
+                    # time, the check-before-lock race cannot explain the duplicate.
+                    wa = [sk for sk in oks if opof[sk]["op"] == "put" and opof[sk]["name"] == uids[u]]
+                    wb = [sk for sk in oks if opof[sk]["op"] == "put" and opof[sk]["name"] == nm]
+                    ov = any(concurrent(x, y) for x in wa for y in wb) if (wa and wb) else True
+                    return viol("duplicate-uid", "%s and %s share UID %s%s" % (uids[u], nm, u, "" if ov else " although the two writes did not overlap in time"), overlapping=ov)
                 uids[u] = nm
-            return viol("stale-check", "every acknowledged write is present, but some etag/UID/existence check was decided on a state another operation had already changed")
+            ov = any(concurrent(x, y) for x, y in itertools.combinations(live, 2))
+            return viol("stale-check", "every acknowledged write is present, but some etag/UID/existence check was decided on a state another operation had already changed", overlapping=ov)
         for sk in oks:
             op = opof[sk]
             others = [x for x in oks if x != sk and opof[x]["name"] == op["name"]]
